@@ -148,4 +148,30 @@ end Node
 def Layer.bindIds (l : Layer) : List Nat := bindIdListL l.scope ++ bindIdListL l.order
 def Layer.setIds (l : Layer) : List Nat := setIdListL l.scope ++ setIdListL l.order
 
+/-- set-identity footprint of an edit addressed at layer `l` from a state with `next = N`:
+    the AttributeSet objects of the layer, and fresh ones -/
+def Layer.fpSet (l : Layer) (N : Nat) (s : Nat) : Prop := s ∈ l.setIds ∨ N ≤ s
+/-- binding-identity footprint: the Binding objects of the layer -/
+def Layer.fpBind (l : Layer) (i : Nat) : Prop := i ∈ l.bindIds
+
+/-- decidable side condition: no binding of the layer has an identifier as its value (so the edit
+    code has no reference to write through) -/
+def Layer.plain (l : Layer) : Bool := !hasIdentValueL l.scope && !hasIdentValueL l.order
+
+/-- Well-formedness used for "the other layers and the body are literally unchanged" (decidable):
+    the collected layer `idx` exists, and the Binding / AttributeSet objects of every OTHER layer
+    and of the target set are not objects of layer `idx`, and their set identities are below
+    `next` (fresh identities are fresh). True of every parsed document: distinct Python objects
+    have distinct identities and `next` is above all of them. -/
+def layerSeparated (d : Doc) (idx : Nat) : Bool :=
+  let L := collectScopeLayers d
+  match L[idx]? with
+  | none => false
+  | some l =>
+    let others := L.take idx ++ L.drop (idx + 1)
+    let ob := others.flatMap Layer.bindIds ++ bindIdList d.target
+    let os := others.flatMap Layer.setIds ++ setIdList d.target
+    ob.all (fun i => !l.bindIds.contains i) &&
+    os.all (fun s => decide (s < d.next) && !l.setIds.contains s)
+
 end Nima
